@@ -25,7 +25,8 @@ TAG = sys.implementation.cache_tag  # e.g. cpython-312
 PYO_LOADABLE = ".pyo" in importlib.machinery.BYTECODE_SUFFIXES  # False on CPython >= 3.5
 
 STEMS = ["a1", "b2", "c3", "d4", "abc123", "0ff1ce", "r_x", "x.y", "notes"]
-SPECIAL_STEMS = ["__init__", ".#a1", ".#lock", "__init__x", "__init___v2"]
+SPECIAL_STEMS = ["__init__", ".#a1", ".#lock", "__init__"]
+INIT_PREFIXED = ["__init__x", "__init___v2"]
 PLAIN_FILES = ["README", "xpy", "env.cfg", "script.py.mako", "a1.txt", "b2.py.bak", "c3.orig", "d4.pyx", "data.pyc.old"]
 SUBDIR_NAMES = ["sub", "deep", "pkg", "zz"]
 
@@ -55,9 +56,9 @@ def gen_plan(rng, special=0.25, sizes=(1, 3)):
 
     def pick_content():
         x = rng.random()
-        if x < 0.03:
+        if x < 0.012:
             return "broken"
-        if x < 0.07:
+        if x < 0.03:
             return "noRev"
         if ids and x < 0.20:
             return {"rev": rng.choice(ids)}
@@ -100,6 +101,8 @@ def gen_plan(rng, special=0.25, sizes=(1, 3)):
         nstems = rng.choice([0, 1, 2, 2, 3, 4])
         for _ in range(nstems):
             st = rng.choice(SPECIAL_STEMS) if rng.random() < special else rng.choice(STEMS)
+            if rng.random() < 0.012:
+                st = rng.choice(INIT_PREFIXED)  # known finding C19-F13
             base = pick_content()
             forms = set()
             r = rng.random()
@@ -109,14 +112,14 @@ def gen_plan(rng, special=0.25, sizes=(1, 3)):
                 forms.update(["py", "pyc"])
             elif r < 0.70:
                 forms.add("pyc")
-            elif r < 0.78:
+            elif r < 0.76:
                 forms.update(["pyc", "pyo"])
-            elif r < 0.84:
+            elif r < 0.78:
                 forms.add("pyo")
             elif r < 0.92:
                 forms.add("cache")
             else:
-                forms.update(rng.sample(["py", "pyc", "pyo", "cache", "cache2", "txt"], rng.randint(1, 4)))
+                forms.update(rng.sample(["py", "py", "pyc", "pyc", "pyo", "cache", "cache2", "txt"], rng.randint(1, 4)))
             if rng.random() < 0.2:
                 forms.add("cache")
             if rng.random() < 0.06:
@@ -148,8 +151,6 @@ def gen_plan(rng, special=0.25, sizes=(1, 3)):
                     add("%s/%s.txt" % (d, st.split(".")[0] or "dot"), "plain", None)
         for nm in rng.sample(PLAIN_FILES, rng.choice([0, 0, 1, 2])):
             add("%s/%s" % (d, nm), "plain", None)
-        if rng.random() < 0.02:
-            add("%s/.py" % d, "src", pick_content())
     for d in sorted(need_cache):
         dirs.append(d + "/__pycache__")
     # symlinks
